@@ -3,17 +3,21 @@
 
   The logical semantics (RoModel/Multi/Core.lean) processes each notification to quiescence. When the
   source and the signal are driven by different goroutines, the callbacks of TakeUntil interleave at
-  the level of their atomic actions (operator_filter.go:521-540):
+  the level of their atomic actions (operator_filter.go:519-545, after fix 3e5361a):
 
       source Next:   if Load(ready) == 1 { return };  destination.Next        (destination serialises)
       source Error / Complete:                        destination.Error / Complete
-      signal Next:   Store(ready, 1)          ← micro-step 1
-                     destination.Complete     ← micro-step 2
+      signal Next:   destination.Complete     ← micro-step 1
+                     Store(ready, 1)          ← micro-step 2
+      signal Error / Complete: the empty callbacks of OnNextWithContext (one step, no effect)
 
   A schedule is a list of thread ids: `0` = the source thread handles its next notification (its
   load-then-call window is harmless: a value that passes the load after the completion was
   delivered is refused by the closed destination, which is the outcome of the arrival order
-  "signal first"), `1` = the signal thread performs its next micro-step.
+  "signal first"), any other id = the signal thread performs its next micro-step.
+  (Before the fix the two micro-steps of the signal were in the other order; the schedule
+  source N · signal Store · source N (skipped) · source E · signal Complete then delivered `N, E`,
+  the output of no arrival order.)
 -/
 import RoModel.Multi.Core
 namespace Ro.Multi.Micro
@@ -21,42 +25,51 @@ open Ro Ro.Multi
 
 variable {α : Type}
 
-/-- one atomic action of the signal thread -/
-inductive SigStep
-  | store                 -- `atomic.StoreUint32(&ready, 1)`
-  | complete (c : Ctx)    -- `destination.CompleteWithContext(ctx)`
-  | nothing               -- the empty onError / onComplete of `OnNextWithContext`
-deriving Repr, DecidableEq
-
-/-- the signal thread's program for its script: every value is two steps -/
-def sigProgram : List (Notif α) → List SigStep
-  | [] => []
-  | .next c _ :: r => .store :: .complete c :: sigProgram r
-  | _ :: r => .nothing :: sigProgram r
-
 structure St (α : Type) where
   ready : Bool := false
+  /-- what the source thread still has to send -/
   src : List (Notif α)
-  sig : List SigStep
+  /-- what the signal thread still has to send; the head is in progress when `mid` -/
+  sig : List (Notif α)
+  /-- the signal thread has done the first micro-step (Complete) of its current value, not yet the second (Store) -/
+  mid : Bool := false
   /-- raw calls of the destination, in order (the downstream subscriber's gate is applied at the end) -/
   calls : List (Notif α) := []
 
 def step (s : St α) (tid : Nat) : St α :=
-  if tid = 0 then
+  match tid with
+  | 0 =>
     match s.src with
     | [] => s
     | .next c v :: r => if s.ready then { s with src := r } else { s with src := r, calls := s.calls ++ [.next c v] }
     | .error c e :: r => { s with src := r, calls := s.calls ++ [.error c e] }
     | .complete c :: r => { s with src := r, calls := s.calls ++ [.complete c] }
-  else
+  | _ + 1 =>
     match s.sig with
     | [] => s
-    | .store :: r => { s with sig := r, ready := true }
-    | .complete c :: r => { s with sig := r, calls := s.calls ++ [.complete c] }
-    | .nothing :: r => { s with sig := r }
+    | .next c _ :: r =>
+      if s.mid then { s with sig := r, mid := false, ready := true }
+      else { s with mid := true, calls := s.calls ++ [.complete c] }
+    | _ :: r => { s with sig := r, mid := false }
 
-/-- delivered trace of TakeUntil(signal)(source) under a schedule of atomic actions; both scripts legal -/
+def run (s : St α) (sched : List Nat) : St α := sched.foldl step s
+
+/-- delivered trace of TakeUntil(signal)(source) under a schedule of atomic actions; each script is cut at
+    its own first terminal (the per-source subscriber) -/
 def takeUntilMicro (source signal : List (Notif α)) (sched : List Nat) : List (Notif α) :=
-  gate (sched.foldl step { src := gate source, sig := sigProgram (gate signal) }).calls
+  gate (run { src := gate source, sig := gate signal } sched).calls
+
+/-- the arrival order a schedule amounts to: a source step is the arrival of the source's notification; the
+    signal's value arrives at its first micro-step; the second micro-step (raising the flag) is no arrival -/
+def arrival : St α → List Nat → List (MEvent α)
+  | _, [] => []
+  | s, 0 :: t =>
+    match s.src with
+    | [] => arrival s t
+    | x :: _ => (0, x) :: arrival (step s 0) t
+  | s, (k + 1) :: t =>
+    match s.sig with
+    | [] => arrival s t
+    | x :: _ => if s.mid then arrival (step s (k + 1)) t else (1, x) :: arrival (step s (k + 1)) t
 
 end Ro.Multi.Micro
